@@ -189,7 +189,7 @@ def _project(prop, op, line):
     if prop == "C10":   # duplicate cache, reply queue, whether something was forwarded, replayed bytes
         return repr((ret, [f[1] for f in fwd], [(c["name"], c.get("cache"), c.get("q")) for c in C], outs))
     if prop == "C12":   # transmissions, retry bookkeeping, loss counters, wait bound
-        return repr((ht if op in ("writer", "reset", "cfg", "srvstate") else sends, [(s["name"], s.get("st"), s.get("lost"), s.get("ss"), s["slotlist"]) for s in S]))
+        return repr((ht if op in ("writer", "reset", "cfg", "srvstate", "srvconn") else sends, [(s["name"], s.get("st"), s.get("lost"), s.get("ss"), s["slotlist"]) for s in S]))
     if prop == "C17":   # reference counts and releases
         return repr((Rr, gone))
     if prop == "C01":
@@ -197,7 +197,7 @@ def _project(prop, op, line):
     if prop == "C02":
         return repr((outs, queues))
     if prop == "C04":
-        return repr((ht, queues, [(s["name"], s["slotlist"]) for s in S])) if op == "reply" else ""
+        return repr((ht, queues, [(s["name"], s["slotlist"]) for s in S])) if op in ("reply", "srvconn") else ""
     if prop == "C05":
         return repr((ret, [f[1] for f in fwd], queues)) if op == "rq" else (repr(outs) if op == "pop" else "")
     if prop == "C06":
@@ -488,3 +488,104 @@ def tcp_history(exe, rng, idx):
         if rng.random() < 0.3:
             h.send("writer " + rng.choice(names))
     return h.finish(kind="tcpconn", nconn=nconn)
+
+
+def srvconn_history(exe, rng, idx):
+    """the proxy as stream CLIENT: TCP home servers; requests are forwarded and transmitted, then the real tcpclientrd reads what the scripted
+    home server writes on the connection: authentic replies, replies with a flipped bit / signed with another secret / for another slot /
+    of a request code, replays, garbage, impossible length fields, all cut into arbitrary segments, with silences and ends of stream in
+    between; refused packets, dead silences and ends of stream make the real closeh/timeouth/tcpconnect re-establish the connection (paced:
+    30 s apart), after which the real writer transmits again what is outstanding"""
+    cfg = W.rand_cfg(rng, rewrites=rng.random() < 0.2, ttl=False, nclients=rng.randrange(1, 3), nservers=rng.randrange(1, 3))
+    for c in cfg.clients:
+        c["reqma"] = c["reqmap"] = False
+    for s in cfg.servers:
+        s["type"] = 2
+        s["rc"] = 0
+        if not s.get("retry_explicit"):
+            s["ri"] = W.PROTO_DEFAULTS[2][1]
+        s["ss"] = rng.randrange(4)
+    cfg.opts["verifyeap"] = 0
+    names = [s["name"] for s in cfg.servers]
+    cfg.realms = [dict(name=b"*", srv=names, acc=names, msg=None, accresp=False)]
+    h = Hist(exe, rng, cfg)
+    if not h.alive:
+        return h.finish(kind="cfg-crash")
+    for c in cfg.clients:
+        h.client(c)
+    for step in range(rng.randrange(6, 18)):
+        if h.s.dead:
+            break
+        r = rng.random()
+        k = rng.randrange(h.ncl)
+        if r < 0.35:
+            out = h.rq(k, h.make_request(k, code=rng.choice([1, 1, 4]), user=b"bob@example.org", ident=rng.choice([0, 1, 2, rng.randrange(256)])))
+            if h.outstanding and rng.random() < 0.7:
+                h.send("writer " + h.outstanding[-1][0])
+        elif r < 0.5:
+            h.send("writer " + rng.choice(names))
+        elif r < 0.58:
+            h.send("tick %d" % rng.choice([1, 2, 5, 10, 29, 30, 31, 61]))
+        elif r < 0.63:
+            h.send("srvstate %s %d %d" % (rng.choice(names), rng.choice([2, 2, 3, 4]), rng.choice([0, 1, 5, 16])))
+        elif r < 0.7:
+            h.send("pop %d" % k)
+        else:
+            sv = rng.choice(names)
+            mine = [e for e in h.outstanding if e[0] == sv]
+            pkts, evs = [], []
+            for _ in range(rng.randrange(0, 4)):
+                v = rng.random()
+                if mine and v < 0.55:
+                    ent = rng.choice(mine)
+                    p = h.make_reply(ent)
+                    if rng.random() < 0.85 and ent in h.outstanding:
+                        h.outstanding.remove(ent)
+                        mine = [e for e in h.outstanding if e[0] == sv]
+                    h.tag("good-reply")
+                elif mine and v < 0.85:
+                    ent = rng.choice(mine)
+                    sub = rng.randrange(6)
+                    p = h.make_reply(ent)
+                    if sub == 0:
+                        b = bytearray(p)
+                        b[rng.randrange(4, len(b))] ^= 1 << rng.randrange(8)      # one bit of the authenticator or an attribute
+                        p = bytes(b)
+                    elif sub == 1:
+                        p = h.make_reply(ent, secret=R.rand_secret(rng))
+                    elif sub == 2:
+                        p = h.make_reply(ent, code=rng.choice([1, 4, 12, 42, 0]))
+                    elif sub == 3:
+                        b = bytearray(p)
+                        b[1] = rng.randrange(256)                                # another slot's identifier
+                        p = bytes(b)
+                    elif sub == 4:
+                        p = h.make_reply(ent, secret=h.cl[ent[3]]["secret"])       # signed with the client's secret
+                    else:
+                        p = mutate(rng, p)
+                    h.tag("bad-reply")
+                else:
+                    p = rng.choice([R.rand_bytes(rng, rng.choice([20, 21, 40])), bytes([2, rng.randrange(256), 0, rng.choice([0, 5, 19])]) + bytes(16),
+                                    R.build(2, rng.randrange(256), b"", [(18, b"x")], h.srv(sv)["secret"], rqauth=bytes(16))])
+                    h.tag("unsolicited")
+                pkts.append(p)
+            stream = b"".join(pkts)
+            cuts = sorted(set(rng.randrange(1, len(stream)) for _ in range(rng.randrange(0, 4)))) if len(stream) > 1 else []
+            segs = [stream[a:b] for a, b in zip([0] + cuts, cuts + [len(stream)])] if stream else []
+            evs = ["w:" + sg.hex() for sg in segs]
+            for _ in range(rng.choice([0, 0, 1, 2])):
+                evs.insert(rng.randrange(len(evs) + 1), rng.choice(["t", "t", "e"]))
+            if rng.random() < 0.25:
+                # a server that owes answers (unanswered count > 0) stays silent on its connection: whether the silence makes the reader
+                # give the connection up depends on the status-server mode
+                h.send("srvstate %s 2 %d" % (sv, rng.choice([1, 3, 16])))
+                evs.insert(0, "t")
+                h.tag("silent-while-unresponsive")
+            out = h.send("srvconn %s %s" % (sv, " ".join(evs)))
+            if " reconnected" in out:
+                h.tag("reconnected")
+            if rng.random() < 0.6:
+                h.send("writer " + sv)
+    for k in range(h.ncl):
+        h.send("pop %d" % k)
+    return h.finish(kind="srvconn")
